@@ -106,7 +106,9 @@ pub fn run(ctx: &Ctx) -> i32 {
     ctx.set("efg_styles", json!(EfgStyle::all().iter().map(|s| s.name()).collect::<Vec<_>>()));
     let budgets: &[u64] = &[1, 50];
     let parallel: &[usize] = &[1, 2];
-    let clips: &[f64] = &[0.0, 0.3];
+    // 0.5 is a probability the first iterate really has (uniform over two actions): the threshold
+    // then coincides with a probability
+    let clips: &[f64] = &[0.0, 0.3, 0.5];
     let methods = ["full", "sampled", "external"];
     ctx.set("options", json!({"methods": methods, "discounts": DISCOUNTS, "max_iters": budgets, "parallel": parallel, "clip_threshold": clips}));
     files.par_iter().enumerate().for_each(|(fi, (file, path))| {
@@ -142,7 +144,7 @@ pub fn run(ctx: &Ctx) -> i32 {
     ctx.assume("files are generated from the harness's own file-level models, so 'the game exactly as written in the file' is the model by construction; duplicate JSON object keys and Gambit constructs the generator does not emit (omitted action lists, comments) are not covered");
     ctx.assume("the quick tier runs a rotating quarter of the one-thread option product and a twentieth of the two-thread one per file (all of it in the thorough tier)");
     ctx.finish(
-        "every generated file (JSON + Gambit styles) of the tiny universe and curated families x {full, sampled, external} x 5 discounts x budgets {1, 50} x parallel {1, 2} x clip {0, 0.3}; states = program runs; every run is non-trivial (a full parse-solve-print cycle checked against the reference evaluation)",
+        "every generated file (JSON + Gambit styles) of the tiny universe and curated families x {full, sampled, external} x 5 discounts x budgets {1, 50} x parallel {1, 2} x clip {0, 0.3, 0.5}; states = program runs; every run is non-trivial (a full parse-solve-print cycle checked against the reference evaluation)",
         true,
         "the real binary is run on every enumerated (file, option combination); what it prints is parsed and re-evaluated by the independent reference evaluator on the file-level model the file was generated from",
     )
